@@ -19,8 +19,9 @@
 (*   FixV1  no replace on shrink; trim the index above the newest commit    *)
 (*   FixV2  buildIndexMap drops entries above the final commit              *)
 (*   FixV3  per page keep the entry of the file with the larger max TXID    *)
-(*   FixV4  seed maxTXID1 from the plan's non-level-0 files (0 if none) and *)
-(*          let the level-1 poll accept a file that overlaps its cursor     *)
+(*   FixV4  seed maxTXID1 at the end of the last level-1 file that lies     *)
+(*          below the plan's first level-0 file (else below the oldest      *)
+(*          level-0 file), so the compaction of the files in use is polled  *)
 (***************************************************************************)
 EXTENDS Integers, Sequences, FiniteSets, TLC
 
@@ -120,12 +121,19 @@ BuildIndex(plan) ==
 
 Rebuild(plan, tgt) ==
   LET p1 == {ElemMax(plan[i]) : i \in {j \in 1..Len(plan) : plan[j].lvl = 1}}
-      hi == {ElemMax(plan[i]) : i \in {j \in 1..Len(plan) : plan[j].lvl >= 1}}
+      \* repair: the cursor goes to the end of the last level-1 file below the plan's first level-0 file
+      l0s == {plan[i].id : i \in {j \in 1..Len(plan) : plan[j].lvl = 0}}
+      first == IF l0s = {} THEN ElemMax(plan[Len(plan)]) + 1 ELSE CHOOSE x \in l0s : \A y \in l0s : x <= y
+      below == {l1[i].max : i \in {j \in 1..Len(l1) : l1[j].max < first}}
       last == plan[Len(plan)]
   IN /\ plan # <<>>
      /\ index' = BuildIndex(plan) /\ pending' = [p \in Pages |-> None] /\ pendRepl' = FALSE
      /\ commit' = ElemCommit(last) /\ pos' = ElemMax(last)
-     /\ max1' = IF FixV4 THEN SetMax(hi) ELSE IF p1 = {} THEN ElemMax(last) ELSE SetMax(p1)   \* vfs.go:1211-1215
+     /\ max1' = IF FixV4 THEN (IF below # {} THEN SetMax(below)
+                                ELSE IF have0 = {} THEN first - 1
+                                ELSE LET m == CHOOSE x \in have0 : \A y \in have0 : x <= y
+                                     IN IF m - 1 < first - 1 THEN m - 1 ELSE first - 1)
+                ELSE IF p1 = {} THEN ElemMax(last) ELSE SetMax(p1)                              \* vfs.go:1211-1215
      /\ target' = tgt /\ openPos' = ElemMax(last) /\ fresh' = TRUE /\ pollErr' = FALSE
      /\ hzOpen' = \E i \in 1..Len(plan) : ElemCommit(plan[i]) > ElemCommit(last)
      /\ hzSeed' = (p1 = {})
@@ -149,12 +157,14 @@ TTReset == /\ WithTT /\ opened /\ ~lock /\ target # 0          \* ResetTime (vfs
 AddFile(acc, e) ==
   LET c == ElemCommit(e)
       shrink == c < acc.last
-      base == IF shrink /\ ~FixV1 THEN [p \in Pages |-> None] ELSE acc.idx        \* vfs.go:2664 replace on shrink
+      base == IF ~shrink THEN acc.idx
+              ELSE IF FixV1 THEN [p \in Pages |-> IF p > c THEN None ELSE acc.idx[p]]   \* repair: only pages above the new commit go
+              ELSE [p \in Pages |-> None]                                           \* vfs.go:2664 replace on shrink
   IN [max |-> ElemMax(e), idx |-> [p \in Pages |-> IF p \in ElemPages(e) THEN e ELSE base[p]],
-      commit |-> c, last |-> c, repl |-> (acc.repl \/ (shrink /\ ~FixV1)), err |-> FALSE, n |-> acc.n + 1,
+      commit |-> c, last |-> c, repl |-> (acc.repl \/ (shrink /\ ~FixV1)), shr |-> (acc.shr \/ shrink), err |-> FALSE, n |-> acc.n + 1,
       first |-> IF acc.n = 0 THEN ElemMax(e) ELSE acc.first]
 Acc0(prevMax, base) == [max |-> prevMax, idx |-> [p \in Pages |-> None], commit |-> base, last |-> base,
-                        repl |-> FALSE, err |-> FALSE, n |-> 0, first |-> 0]
+                        repl |-> FALSE, shr |-> FALSE, err |-> FALSE, n |-> 0, first |-> 0]
 \* level 0: consecutive existing files from prevMax+1; a gap defers to the higher level (vfs.go:2648)
 RECURSIVE Poll0(_, _)
 Poll0(acc, j) == IF j > N \/ j \notin have0 THEN acc ELSE Poll0(AddFile(acc, [lvl |-> 0, id |-> j]), j + 1)
@@ -163,8 +173,8 @@ RECURSIVE Poll1(_, _, _)
 Poll1(acc, i, prevMax) ==
   IF i > Len(l1) THEN acc
   ELSE LET f == l1[i] IN
-       IF (IF FixV4 THEN f.max <= prevMax ELSE f.min < prevMax + 1) THEN Poll1(acc, i + 1, prevMax)
-       ELSE IF (IF FixV4 THEN f.min > acc.max + 1 ELSE f.min # acc.max + 1) THEN [acc EXCEPT !.err = TRUE]
+       IF f.min < prevMax + 1 THEN Poll1(acc, i + 1, prevMax)
+       ELSE IF f.min # acc.max + 1 THEN [acc EXCEPT !.err = TRUE]
        ELSE Poll1(AddFile(acc, [lvl |-> 1, id |-> i]), i + 1, prevMax)
 
 Newer(a, b) == ElemMax(a) > ElemMax(b) \/ (ElemMax(a) = ElemMax(b) /\ a.lvl >= b.lvl)
@@ -187,7 +197,7 @@ PollResult ==
       newC == IF r1.repl THEN r1.commit ELSE IF r1.commit > new0 THEN r1.commit ELSE new0
       newest == IF r0.max >= r1.max THEN r0.commit ELSE r1.commit
   IN [r0 |-> r0, r1 |-> r1, replace |-> replace, combined |-> combined, newC |-> newC, newest |-> newest,
-      err |-> r1.err]
+      shrunk |-> (r0.shr \/ r1.shr \/ newest < commit), err |-> r1.err]
 
 Poll ==
   /\ opened /\ target = 0                                  \* the monitor skips polling during time travel (vfs.go:2480)
@@ -198,8 +208,10 @@ Poll ==
        ELSE /\ pollErr' = FALSE /\ fresh' = TRUE
             /\ IF FixV1
                  THEN /\ commit' = r.newest
-                      /\ IF lock THEN /\ pending' = Over(pending, r.combined) /\ UNCHANGED index
-                                 ELSE /\ index' = Trim(Over(index, r.combined), r.newest) /\ UNCHANGED pending
+                      /\ LET tgt(x) == IF r.shrunk THEN Trim(x, r.newest) ELSE x
+                             upd == Trim(r.combined, r.newest) IN
+                         IF lock THEN /\ pending' = Over(tgt(pending), upd) /\ UNCHANGED index
+                                 ELSE /\ index' = Over(tgt(index), upd) /\ UNCHANGED pending
                       /\ UNCHANGED pendRepl
                  ELSE /\ IF lock
                            THEN /\ pending' = IF r.replace THEN r.combined ELSE Over(pending, r.combined)
